@@ -9,7 +9,7 @@ import (
 // Adversarial name pool: byte order and protocol path order disagree on
 // several of these ('a' < 'a-b' < 'a/b' bytewise, but 'a/b' sorts before
 // 'a-b' in the protocol), bytes below and above '/', spaces, dots, non-ASCII.
-var Names = []string{"a", "a-b", "a b", "a.b", "a+", "a,", "a!", "ab", "A", "é", "~", ".c", "b", "c", "a0", "a-", "d", "e.txt", "z", "0"}
+var Names = []string{"a", "a-b", "a b", "a.b", "a+", "a,", "a!", "ab", "A", "é", "~", ".c", "b", "c", "a0", "a-", "d", "e.txt", "z", "0", "..a", "..."}
 
 var LongName = strings.Repeat("L", 255)
 
